@@ -21,3 +21,8 @@ def run(F, X, rep):
     R.t2_zero_means_immediate(C, rep, "C11-T2")
     R.t3_timeout_arm(C, rep, "C11-T3")
     R.t4_not_before(C, rep, "C11-T4")
+    # T5: the configured value reaches params.mpp_timeout (and is not crossed with the payment timeout)
+    import p_c19
+    mb = p_c19.main_body(F)
+    if rep.anchor("C11-T5", "main coroutine", 1 if mb else 0):
+        p_c19.w_wiring(F, X, rep, mb, F.root_of(mb), rid="C11-T5")
